@@ -20,11 +20,35 @@ PROPS = {
     },
     'C03': {
         'correspondence': CORR_L1,
-        'coq': ['theories/Props/C03.vo', 'theories/Inst/C03_now.vo'],
+        'coq': ['theories/Props/C03.vo', 'theories/Inst/C03_now.vo', 'theories/L1h/PropsC03once.vo', 'theories/L1h/Inst.vo'],
         'profiles': [prof('pool', (80, 20), (2000, 80)), prof('core', (40, 10), (1000, 40), extra=['--min-pool', '1'])],
         'monitors': ['C03'], 'liveness': True, 'panics': False,
         'trusted_base': L1_TRUST,
         'assumptions': ['L-quiet excludes stranding and deadlock; livelock is excluded only by the step bound of the controlled runtime'],
+    },
+    'C02': {
+        'correspondence': CORR_L1,
+        'coq': ['theories/L1h/PropsC02.vo', 'theories/L1h/Inst.vo'],
+        'profiles': [prof('core', (60, 15), (1500, 60)), prof('sync', (40, 15), (800, 60)), prof('fut', (40, 15), (800, 40)), prof('fsync', (30, 10), (600, 40))],
+        'monitors': ['C02'], 'liveness': False, 'panics': False,
+        'trusted_base': L1_TRUST + ['L1h: history observer over the unmodified L1 step function'],
+        'assumptions': ['the theorem covers desync/sync/try_sync (layer L1); the order of future-based operations is covered by the run-time order oracle only until the L2 layer is finished'],
+    },
+    'C04': {
+        'correspondence': CORR_L1,
+        'coq': ['theories/Props/C04.vo', 'theories/Inst/C04_now.vo', 'theories/L1h/PropsC04.vo', 'theories/L1h/Inst.vo'],
+        'profiles': [prof('sync', (80, 20), (2000, 80)), prof('core', (40, 10), (800, 40)), prof('pool', (30, 10), (600, 40))],
+        'monitors': ['C04'], 'liveness': True, 'panics': False,
+        'trusted_base': L1_TRUST,
+        'assumptions': ['returns-for-pool-size-0 is exercised under the controlled runtime only (theorem C04_sync_returns_pool_partial needs a maximum >= 1); nested sync from inside jobs is exercised by the profiles, not modelled'],
+    },
+    'C05': {
+        'correspondence': CORR_L1,
+        'coq': ['theories/L1h/PropsC05.vo', 'theories/L1h/Inst.vo'],
+        'profiles': [prof('drop', (80, 20), (2000, 80)), prof('core', (30, 10), (600, 40))],
+        'monitors': ['C05'], 'liveness': True, 'panics': True,
+        'trusted_base': L1_TRUST + ['drop is modelled as what the code does: a final sync whose closure frees the value (fact drop_is_sync_free)'],
+        'assumptions': ['freed-exactly-once and no-use-after-free are observed by the payload monitors (drop counter, dead flag) on the real crate; the theorem gives the ordering that makes them true'],
     },
     'C09': {
         'correspondence': CORR_L1,
@@ -33,6 +57,13 @@ PROPS = {
         'monitors': ['C09'], 'liveness': True, 'panics': False,
         'trusted_base': L1_TRUST,
         'assumptions': [],
+    },
+    'C11': {
+        'coq': ['theories/PipeIn/PropsC11.vo', 'theories/PipeIn/PropsC11_examples.vo', 'theories/Inst/C11_now.vo'],
+        'profiles': [prof('pipein', (80, 20), (1500, 60), extra=['--max-steps', '30000'])],
+        'monitors': ['C11', 'C01', 'C05'], 'liveness': True, 'panics': True,
+        'trusted_base': ['PipeIn model (coq/theories/PipeIn/Model.v): hand-written, the object abstracted as one-at-a-time FIFO execution (justified by C01/C02), tied by translator facts and the run-time oracles'],
+        'assumptions': ['the Desync object is abstracted as ObjExec (exclusive FIFO execution); a processing future that suspends is one step'],
     },
     'C15': {
         'coq': ['theories/Props/C15.vo', 'theories/Inst/C15_now.vo'],
